@@ -1093,12 +1093,20 @@ class Ev:
             if isinstance(s, ast.Try):
                 # idiom: try: return Enum(x) / except ValueError: pass
                 handled = [h for h in s.handlers if h.type is not None and (dotted(h.type) or "").split(".")[-1] == "ValueError"]
-                if len(s.body) == 1 and isinstance(s.body[0], ast.Return) and handled and all(isinstance(x, ast.Pass) for x in handled[0].body):
+                hb = handled[0].body if handled else []
+                simple_handler = all(isinstance(x, ast.Pass) for x in hb) or (len(hb) == 1 and isinstance(hb[0], ast.Return))
+                if len(s.body) == 1 and isinstance(s.body[0], ast.Return) and handled and len(s.handlers) == 1 and simple_handler and not s.orelse and not s.finalbody:
                     v = self.ev(s.body[0].value, env, module)
                     if isinstance(v, EnumV):
                         c = ("in_enum", v.cls.name, v.raw)
                         returns.append((c_and(pc, c), v))
                         pc = c_and(pc, c_not(c))
+                        if hb and isinstance(hb[0], ast.Return):
+                            # `except ValueError: return X`: the value for codes outside the enum
+                            hv = self.ev(hb[0].value, env, module) if hb[0].value is not None else Py(None)
+                            returns.append((pc, hv))
+                            pc = FALSE
+                            break
                         continue
                 raise Unsupported("try statement outside the `try: return Enum(x) except ValueError: pass` idiom")
             if isinstance(s, ast.Match):
